@@ -358,7 +358,7 @@ def contract(jac, coeff):
     return g, gross
 
 
-def compare_grads(g, gref, gross=None, rel=1e-3, abs_gross=2e-5, abs_floor=1e-7, kappa=0.0):
+def compare_grads(g, gref, gross=None, rel=1e-3, abs_gross=2e-5, abs_floor=1e-7, kappa=0.0, extra=None):
     """Largest violation of |g-gref| <= abs_gross*gross + rel*|gref| + abs_floor*(1+G)
     over all leaves; returns (ok, description).  G = global max |gref|.
     ``kappa`` (see logp_conditioning) widens the gross-relative allowance by
@@ -376,6 +376,8 @@ def compare_grads(g, gref, gross=None, rel=1e-3, abs_gross=2e-5, abs_floor=1e-7,
             return False, f"{k}: non-finite gradient"
         gr = gross[k] if gross is not None else np.full_like(b, G)
         tol = abs_gross * np.maximum(gr, G) + rel * np.abs(b) + abs_floor * (1.0 + G)
+        if extra is not None:  # explicit additional allowance per leaf (e.g. float32 rounding of the weights)
+            tol = tol + extra[k]
         ex = np.max(np.abs(a - b) / tol) if a.size else 0.0
         if ex > worst:
             worst, where = float(ex), k
